@@ -51,7 +51,6 @@ func runCacheHistory(g *vk.StoreGen, capacity, n int, onStep func(c *mocrelay.Ev
 	}
 }
 
-
 // concurrentDeletionPairs is the concurrent reading of the retention rules: an event and
 // a deletion request of its author that references it are inserted at the same time
 // (with a delay injected between the phases of Add); whatever the order, the quiescent
